@@ -9,7 +9,11 @@ ROOT = os.path.dirname(os.path.dirname(os.path.abspath(__file__)))
 RND = sys.argv[1] if len(sys.argv) > 1 else 'r2'
 FIRST_PASS_MISSED = set('''C01-r2m1 C01-r2m3 C02-r2m2 C03-r2m2 C03-r2m3 C04-r2m2 C07-r2m1 C09-r2m1 C09-r2m2 C09-r2m3 C10-r2m1 C10-r2m3
 C12-r2m2 C13-r2m2 C14-r2m1 C14-r2m2 C14-r2m3 C15-r2m2 C16-r2m3 C17-r2m1 C17-r2m2
+C01-r3m1 C01-r3m2 C02-r3m3 C03-r3m3 C04-r3m2 C07-r3m1 C08-r3m2 C09-r3m2 C09-r3m3 C13-r3m2 C13-r3m3 C14-r3m1 C14-r3m2 C14-r3m3
+C15-r3m1 C15-r3m3 C16-r3m3 C17-r3m1
 '''.split())
+# not evaluated before the workloads were extended (evaluation harness interrupted): first-pass status unknown
+FIRST_PASS_UNKNOWN = set('C10-r3m1 C10-r3m2 C10-r3m3 C12-r3m1 C12-r3m2'.split())
 DETECTED_ELSEWHERE = {}       # name -> text, for changes reported by another property's check
 NEEDS = re.compile(r'^\W*(what it )?needs', re.I)
 
@@ -48,8 +52,8 @@ for prop in [f'C{i:02d}' for i in range(1, 19)]:
                 'demo_with_change': 'exit 1',
                 'how': f'selftest/eval_seeded_dir.sh seeded/{name} {prop} (fresh scratch worktree: applies patch.diff, runs pytest and demo.py both ways, runs the check with HID_REPO=<worktree>)',
             },
-            'detected_by': DETECTED_ELSEWHERE.get(name) or {f'{prop} quick tier': 'VIOLATION (exit 1) at VERIF_SEED 0 and 5'},
-            'initially_missed_by_quick_tier': name in FIRST_PASS_MISSED,
+            'detected_by': DETECTED_ELSEWHERE.get(name) or {f'{prop} quick tier': 'VIOLATION (exit 1)'},
+            'initially_missed_by_quick_tier': None if name in FIRST_PASS_UNKNOWN else name in FIRST_PASS_MISSED,
         }
         json.dump(meta, open(f'{d}/meta.json', 'w'), indent=1)
         print(name, '|', change[:70], '|', (needs or '-')[:60])
